@@ -347,8 +347,42 @@ def app_payload(o):
     return ("R", p.proto, bytes(a))
 
 
+def abstract_reply(app):
+    """The fields of an SMB reply that C17 determines (framing, reply flag, command, correlation fields, embedded
+    lengths / offsets and whether they are consistent with the bytes present, selected dialect); free fields (times,
+    GUIDs, capabilities, native OS strings, the blob's content) are left out."""
+    if len(app) < 8 or app[0] != 0 or app[5:8] != b"SMB":
+        return ("raw", app)
+    nbt_ok = int.from_bytes(app[1:4], "big") & 0x1ffff == len(app) - 4
+    m = app[4:]
+    if m[0] == 0xff and len(m) >= 32:
+        hdr = (m[4], m[9] & 0x80, m[12:14], m[24:32])
+        b = m[32:]
+        if m[4] == 0x72 and len(b) >= 37:
+            bc, = struct.unpack("<H", b[35:37])
+            return ("smb1-neg", nbt_ok, hdr, b[0], b[1:3], bc == len(b) - 37, len(b) - 37 - 16, der_len_ok(b[53:]))
+        if m[4] == 0x73 and len(b) >= 11:
+            sl, bc = struct.unpack("<HH", b[7:11])
+            return ("smb1-setup", nbt_ok, hdr, b[0], sl, bc == len(b) - 11, der_len_ok(b[11:11 + sl]))
+        return ("smb1-other", nbt_ok, hdr, len(b))
+    if m[0] == 0xfe and len(m) >= 64:
+        hdr = (m[12:14], m[16] & 1, m[24:48])
+        b = m[64:]
+        if m[12:14] == b"\0\0" and len(b) >= 64:
+            off, ln = struct.unpack("<HH", b[56:60])
+            return ("smb2-neg", nbt_ok, hdr, b[0:2], b[4:6], off, ln == len(b) - 64, der_len_ok(b[64:]))
+        if m[12:14] == b"\1\0" and len(b) >= 8:
+            off, ln = struct.unpack("<HH", b[4:8])
+            return ("smb2-setup", nbt_ok, hdr, b[0:2], off, ln == len(b) - 8, der_len_ok(b[8:]))
+        return ("smb2-other", nbt_ok, hdr, len(b))
+    return ("raw", app)
+
+
 def project(script, i, o):
-    return app_payload(o)
+    a = app_payload(o)
+    if a[0] != "R" or len(a) != 3:
+        return a
+    return ("R", a[1], abstract_reply(a[2]))
 
 
 def history_monitor(script, outs):
